@@ -88,12 +88,12 @@ def global_types():
     return _globals
 
 
-def compare(ctx, d, root, tag):
+def compare(ctx, d, root, tag, component='comp'):
     d = copy.copy(d)
     ge, gu = global_types()
     d.enums = list(d.enums) + [e for e in ge if e[0] not in [x[0] for x in d.enums]]
     d.udts = list(d.udts) + [u for u in gu if u[0] not in [x[0] for x in d.udts]]
-    exp_t, exp_c = bp.reference_xsd(d)
+    exp_t, exp_c = bp.reference_xsd(d, component)
     got_t, got_c, problems = bp.observed_xsd(root)
     if problems:
         raise Mismatch('declarations/duplicate', '%s: %s' % (tag, '; '.join(problems[:3])))
@@ -130,7 +130,7 @@ def edit(rng, d):
         return c14.edit(rng, d) if k != 'move' else move(rng, d)
     if k == 'add-attr':
         c = rng.choice(d.classes)
-        ty = rng.choice(c14.TYPES + ['Color', 'Deep_t', 'void'] + unsupported_types(d, c))
+        ty = rng.choice(c14.TYPES + ['Color', 'Deep_t', 'void', 'Local_Enum', 'Local_Enum', 'Second_Enum'] + unsupported_types(d, c))
         c.attrs.insert(rng.randint(1, len(c.attrs)), bp.Attr(unique_name(d, 'added', rng), ty))
         return ('add-attr', c.kl, ty)
     if k == 'add-enum':
@@ -145,7 +145,7 @@ def edit(rng, d):
     if k == 'add-udt':
         name = unique_name(d, 'U', rng)
         d.udts.append((name, rng.choice(('integer', 'string', 'Color', 'Count_t', 'void', 'inst_ref<Object>')),
-                       rng.choice(('pkg', 'comp', 'deep'))))
+                       rng.choice(('pkg', 'comp', 'deep', 'comp2'))))
         return ('add-user-type', name)
     return None
 
@@ -189,6 +189,13 @@ def one_diagram(ctx, rng, tmpdir):
     d = c14.random_diagram(rng, derived_keys=True)
     # enumerators are declared under their modeled names, also when such a name is a word of Python
     d.enums.append(('Local_Enum', ['L1', 'L2'] if rng.random() < 0.5 else ['L1', 'pass', 'None', 'L2', 'class'], 'comp'))
+    # ... and one in the second component (declared for that component only)
+    d.enums.append(('Second_Enum', ['S1', 'S2'], 'comp2'))
+    for c in d.classes:
+        if rng.random() < 0.25:
+            # typed by a type that lives in one of the components (the class may be in the other, or move there)
+            ctx.hit('Xsd.attribute-typed-by-component-local-type')
+            c.attrs.append(bp.Attr(unique_name(d, 'loc', rng), rng.choice(('Local_Enum', 'Second_Enum'))))
     if rng.random() < 0.5:
         # data types two package levels below the component: in scope, declared once
         ctx.hit('Xsd.types-in-nested-package')
@@ -205,6 +212,10 @@ def one_diagram(ctx, rng, tmpdir):
     root = generate(ctx, text, 'Comp')
     compare(ctx, d, root, 'generated')
     ctx.hit('Xsd.enumerator-order')
+    # the second component of the same model: its own classes and types, the global types; an attribute typed by
+    # a type of the first component keeps that type name
+    ctx.hit('Xsd.second-component')
+    compare(ctx, d, generate(ctx, text, 'Other_Comp'), 'generated for the second component', 'comp2')
     edits = []
     for _ in range(rng.randint(1, 3)):
         e = edit(rng, d)
@@ -214,6 +225,7 @@ def one_diagram(ctx, rng, tmpdir):
         text = bp.build(d).rows.text(rng)
         ctx.hit('Xsd.after-edit')
         compare(ctx, d, generate(ctx, text, 'Comp'), 'after edits %r' % (edits,))
+        compare(ctx, d, generate(ctx, text, 'Other_Comp'), 'second component after edits %r' % (edits,), 'comp2')
     if rng.random() < 0.25:
         cli(ctx, d, text, tmpdir)
     _, cls = bp.reference_xsd(d)
